@@ -1,8 +1,9 @@
 #!/bin/bash
 # Offline setup: build the overlay generator and pre-build every harness (warm cache).
-cd /verif || exit 1
+cd "$(dirname "$(readlink -f "$0")")" || exit 1
+ROOT=$(pwd); export VERIF_ROOT="$ROOT"
 export GOFLAGS=-mod=mod GOPROXY=off GOSUMDB=off GOTOOLCHAIN=local
-export GOCACHE=${GOCACHE:-/verif/.build/gocache}
+export GOCACHE=${GOCACHE:-$ROOT/.build/gocache}
 mkdir -p .build evidence
 cp /repo/go.sum go.sum.repo 2>/dev/null
 [ -f go.sum ] || cp /repo/go.sum go.sum
@@ -11,7 +12,7 @@ rc=0
 for d in checks/c*/; do
   id=$(basename "$d")
   [ -f "$d/manifest.json" ] || continue
-  B=/verif/.build/$id
+  B=$ROOT/.build/$id
   mkdir -p "$B"
   .build/mkoverlay -check "$id" -out "$B" || rc=1
   go build -tags verif -overlay "$B/overlay.json" -o "$B/bin" "./checks/$id" || rc=1
